@@ -97,6 +97,8 @@ def check_root_grid(case):
     # the last step runs to the next range point (== end for aligned horizons)
     if tg.T and not np.allclose(tg.dt[:-1], el[:-1], rtol=1e-12, atol=0):
         out.append(fail('C19.grid.dt_is_elapsed_time', 'basic_classes:Timegrid.__init__', case, case, 'dt differs from elapsed time'))
+        out.append(fail('C12.grid.step_length_is_elapsed_time_across_dst', 'basic_classes:Timegrid.__init__', case, case,
+                        f'dt {np.round(tg.dt, 4).tolist()[:6]} vs elapsed {np.round(el, 4).tolist()[:6]}'))
     if not all(tp[k] < tp[k + 1] for k in range(tg.T - 1)) or (tg.T and (tp[0] != tg.start or tp[-1] >= tg.end)):
         out.append(fail('C19.grid.points', 'basic_classes:Timegrid.__init__', case, case, 'points not increasing from start to before end'))
     if tg.T and not np.allclose(tg.Dt, np.cumsum(tg.dt)):
@@ -249,9 +251,11 @@ def check_split(case):
                             f'asset {a.name}: DCF total {got} vs -c.x of its own variables {own[a.name]}'))
             break
     d = o['dispatch']
-    bal_b = d['load (b)'] + d['t (b)']
-    if np.abs(bal_b.values).max() > 1e-5:
-        out.append(fail('C14.feasible.nodal_balance', 'portfolio:Portfolio.setup_split_optim_problem', case, params, f'node b not balanced: {np.abs(bal_b.values).max()}'))
+    for node in ('a', 'b'):
+        bal = d[[c for c in d.columns if c.endswith(f'({node})')]].sum(axis=1)
+        if np.abs(bal.values).max() > 1e-5:
+            for nm_ in ('C14.feasible.nodal_balance', 'C01.split.reported_dispatch_nets_to_zero'):
+                out.append(fail(nm_, 'portfolio:Portfolio.setup_split_optim_problem', case, params, f'node {node} not balanced: {np.abs(bal.values).max()} at step {int(np.abs(bal.values).argmax())}'))
     if not case['storage']:
         if abs(rs.value - res.value) > 1e-4 * max(1, abs(res.value)):
             out.append(fail('C14.equal_uncoupled', 'portfolio:Portfolio.setup_split_optim_problem', case, params, f'split {rs.value} != unsplit {res.value}'))
@@ -274,6 +278,10 @@ def check_fix_window(case):
     if case['transport']:
         assets += [eao.assets.Transport(name='t', nodes=[n1, n2], min_cap=0., max_cap=2., efficiency=0.9),
                    eao.assets.SimpleContract(name='load', nodes=n2, min_cap=-1., max_cap=-1.)]
+    if case.get('multistep'):
+        # variables that belong to SEVERAL steps: an asset on its own coarser frequency (one variable per 6 h) and a periodic one
+        assets += [eao.assets.SimpleContract(name='coarse', nodes=n1, price='p', min_cap=-1., max_cap=1., freq='6h'),
+                   eao.assets.SimpleContract(name='periodic', nodes=n1, price='p', min_cap=-.5, max_cap=.5, extra_costs=.1, periodicity='6h')]
     pf = eao.portfolio.Portfolio(assets)
     op, res = optimize(pf, {'p': price}, tg)
     mask = np.zeros(tg.T, bool)
@@ -490,7 +498,13 @@ def _hist_assets(eao, rng):
             eao.assets.SimpleContract(name='sell', nodes=A, price='q', min_cap=-1., max_cap=caps, wacc=rng.choice([0., 0.3])),
             eao.assets.Storage(name='sto', nodes=A, size=3., cap_in=1., cap_out=1., eff_in=0.9, wacc=rng.choice([0., 0.05]), no_simult_in_out=rng.random() < 0.3),
             eao.assets.Transport(name='tr', nodes=[A, B], min_cap=0., max_cap=2., efficiency=0.9, wacc=rng.choice([0., 0.2])),
-            eao.assets.SimpleContract(name='load', nodes=B, min_cap=-1., max_cap=-1., start=t0 + pd.Timedelta(rng.choice([0, 5]), 'h'))]
+            eao.assets.SimpleContract(name='load', nodes=B, min_cap=-1., max_cap=-1., start=t0 + pd.Timedelta(rng.choice([0, 5]), 'h')),
+            # two assets with their own coarser frequency, the same window and different waccs; an order book (reads the shared grid's restricted part)
+            eao.assets.SimpleContract(name='own1', nodes=A, price='q', min_cap=0., max_cap=1., freq='4h', wacc=.4),
+            eao.assets.SimpleContract(name='own2', nodes=A, price='q', min_cap=-1., max_cap=0., extra_costs=.1, freq='4h', wacc=0.),
+            eao.assets.OrderBook(name='book', nodes=A, wacc=rng.choice([0., .25]), orders=pd.DataFrame(
+                {'start': [t0 + pd.Timedelta(2, 'h'), t0 + pd.Timedelta(8, 'h')], 'end': [t0 + pd.Timedelta(12, 'h'), t0 + pd.Timedelta(60, 'h')],
+                 'capa': [1., -2.], 'price': [3., 8.]}))]
 
 
 def _grids(eao):
@@ -867,6 +881,12 @@ def _stoch_setup(case):
     if case.get('transport'):
         assets += [eao.assets.Transport(name='t', nodes=[A, B], min_cap=0., max_cap=1.5, efficiency=.9),
                    eao.assets.SimpleContract(name='mb', nodes=B, price='q', min_cap=-1., max_cap=0., extra_costs=.1)]
+    if case.get('internal'):
+        # future variables that are not of dispatch type: a structured asset with an internal node (type 'i' after wrapping)
+        In = eao.assets.Node('inner')
+        inner = eao.portfolio.Portfolio([eao.assets.SimpleContract(name='src', nodes=In, price='q', min_cap=0., max_cap=1.5),
+                                         eao.assets.Transport(name='pipe', nodes=[In, A], min_cap=0., max_cap=1.5, efficiency=.95)])
+        assets.append(eao.portfolio.StructuredAsset(name='wrapped', portfolio=inner, nodes=A))
     rng.shuffle(assets)
     pf = eao.portfolio.Portfolio(assets)
     base = {'p': np.asarray([float(rng.randint(1, 9)) for _ in range(T)]), 'q': np.asarray([float(rng.randint(1, 9)) for _ in range(T)])}
@@ -1531,4 +1551,223 @@ def check_permutation(case):
         if abs(got[0] - ref[0]) > 1e-5 * max(1., abs(ref[0])):
             F('C09.same_value_under_renaming_and_permutation', f'order {order} naming scheme {sc_}: value {got[0]} vs {ref[0]}')
             break
+    return out
+
+
+# ------------------------------------------------------------------------------------------------ C13 / C07 periodic assets of several kinds
+def _wf_problem(op, T, label):
+    """C07 well-formedness of a produced problem; returns a list of (name, detail)"""
+    bad = []
+    n = len(op.c)
+    m = op.mapping
+    if not (len(op.l) == n and len(op.u) == n and (op.A is None or op.A.shape[1] == n)):
+        bad.append(('C07.wf.one_entry_per_variable', f'{label}: len c/l/u = {n}/{len(op.l)}/{len(op.u)}, A columns {None if op.A is None else op.A.shape[1]}'))
+        return bad
+    idx = np.asarray(m.index, dtype=float)
+    if len(idx) and (np.any(idx < 0) or np.any(idx >= n) or np.any(idx != np.round(idx))):
+        bad.append(('C07.wf.mapping_rows_point_to_existing_variables', f'{label}: mapping index outside [0, {n}): {sorted(set(int(i) for i in idx if i < 0 or i >= n))[:6]}'))
+        return bad
+    mapped = set(int(i) for i in idx)
+    A = op.A.tocsc() if op.A is not None else None
+    for j in range(n):
+        if j not in mapped and (abs(op.c[j]) > 1e-12 or (A is not None and A[:, j].nnz > 0)):
+            bad.append(('C07.wf.unmapped_variable_has_no_cost_and_no_row', f'{label}: variable {j} has no mapping row but cost {op.c[j]} / {0 if A is None else A[:, j].nnz} matrix entries'))
+            break
+    if np.any(np.isnan(op.c)) or np.any(np.isnan(op.l)) or np.any(np.isnan(op.u)) or np.any(op.l > op.u + 1e-12):
+        bad.append(('C07.wf.bounds_ordered_no_nan', label))
+    ts = np.asarray(m['time_step'], dtype=float)
+    if len(ts) and (np.any(ts < 0) or np.any(ts >= T)):
+        bad.append(('C07.wf.steps_on_grid', label))
+    return bad
+
+
+def check_periodic_kinds(case):
+    """C13 / C07: an asset of any kind that accepts `periodicity` (one or two variables per step, one or several mapping rows
+    per variable, with / without periodicity_duration) yields a well-formed problem, and in a portfolio its optimum equals
+    that of the same portfolio without periodicity plus the equalities 'same dispatch at the same position of every period
+    inside a duration' (independent LP: the non-periodic assembled problem + equality rows, solved by scipy/HiGHS)."""
+    from scipy.optimize import linprog
+    eao = eao_mod()
+    out = []
+    rng = random.Random(case['seed'])
+    start = pd.Timestamp('2021-01-04')            # a Monday
+    tg = eao.assets.Timegrid(start, start + pd.Timedelta(case['days'], 'd'), freq=case['freq'])
+    T = tg.T
+    A, B = eao.assets.Node('A'), eao.assets.Node('B')
+    prices = {'p': np.asarray([float(rng.randint(1, 9)) for _ in range(T)]), 'q': np.asarray([float(rng.randint(1, 9)) for _ in range(T)])}
+    per, dur = 'd', case['duration']
+
+    def build(periodic):
+        kw = dict(periodicity=per, periodicity_duration=dur) if periodic else {}
+        kind = case['kind']
+        if kind == 'simple':
+            a = eao.assets.SimpleContract(name='x', nodes=B, price='q', min_cap=-1., max_cap=2., **kw)
+        elif kind == 'spread':
+            a = eao.assets.Contract(name='x', nodes=B, price='q', extra_costs=.5, min_cap=-1., max_cap=2., **kw)
+        elif kind == 'transport':
+            a = eao.assets.Transport(name='x', nodes=[A, B], min_cap=0., max_cap=2., efficiency=.9, costs_const=.1, **kw)
+        else:
+            a = eao.assets.MultiCommodityContract(name='x', nodes=[A, B], factors_commodities=[-1., .8], min_cap=0., max_cap=2., extra_costs=.2, **kw)
+        others = [eao.assets.SimpleContract(name='mA', nodes=A, price='p', min_cap=-5., max_cap=5.),
+                  eao.assets.SimpleContract(name='mB', nodes=B, price='q', min_cap=-1., max_cap=1., extra_costs=.3)]
+        assets = [a] + others if case.get('first', True) else others + [a]
+        return a, eao.portfolio.Portfolio(assets)
+    F = lambda name, detail: out.append(fail(name, 'optimization:OptimProblem.__make_periodic__', case, dict(case), detail))
+    a_per, pf_per = build(True)
+    op_alone = a_per.setup_optim_problem(prices, tg)
+    for name, detail in _wf_problem(op_alone, T, 'stand-alone periodic asset'):
+        F(name, detail)
+    op_per = pf_per.setup_optim_problem(prices, tg)
+    for name, detail in _wf_problem(op_per, T, 'portfolio with the periodic asset'):
+        F(name, detail)
+    if out:
+        return out
+    res = op_per.optimize()
+    # reference: the non-periodic portfolio problem + equalities between the asset's variables of the same kind at the same
+    # position of every period inside one duration
+    a0, pf0 = build(False)
+    op0 = pf0.setup_optim_problem(prices, tg)
+    m = op0.mapping
+    mine = m[m['asset'] == 'x']
+    first = mine[~mine.index.duplicated(keep='first')]
+    step_h = pd.Timedelta(case['freq']) / pd.Timedelta(1, 'h')
+    per_steps = int(round(24 / step_h))
+    dur_steps = None if dur is None else int(round(pd.Timedelta(dur) / pd.Timedelta(case['freq'])))
+    groups = {}
+    for i, r in first.iterrows():
+        t = int(r['time_step'])
+        key = (r.get('var_name'), 0 if dur_steps is None else t // dur_steps, t % per_steps)
+        groups.setdefault(key, []).append(int(i))
+    n = len(op0.c)
+    A0 = op0.A.toarray()
+    ct = np.array(list(op0.cType))
+    eq_rows, eq_b = [A0[(ct == 'S') | (ct == 'N')]], [op0.b[(ct == 'S') | (ct == 'N')]]
+    for g in groups.values():
+        for i, j in zip(g[:-1], g[1:]):
+            row = np.zeros((1, n))
+            row[0, i], row[0, j] = 1., -1.
+            eq_rows.append(row)
+            eq_b.append(np.zeros(1))
+    ub_rows = np.vstack([A0[ct == 'U'], -A0[ct == 'L']])
+    ub_b = np.hstack([op0.b[ct == 'U'], -op0.b[ct == 'L']])
+    r = linprog(op0.c, A_ub=ub_rows if len(ub_b) else None, b_ub=ub_b if len(ub_b) else None, A_eq=np.vstack(eq_rows), b_eq=np.hstack(eq_b),
+                bounds=list(zip(op0.l, op0.u)), method='highs')
+    if isinstance(res, str) or r.status != 0:
+        if isinstance(res, str) != (r.status != 0):
+            F('C13.periodic.same_feasibility_as_fine_problem_with_equalities', f'EAO {res if isinstance(res, str) else "optimal"} reference status {r.status}')
+        return out
+    if abs(res.value + r.fun) > 1e-5 * max(1., abs(r.fun)):
+        F('C13.periodic.value_equals_fine_problem_with_equalities', f'periodic {res.value} vs reference {-r.fun}')
+    # the reported dispatch repeats inside a duration
+    o = eao.io.extract_output(pf_per, op_per, res)
+    for col in [c for c in o['dispatch'].columns if c.startswith('x')]:
+        v = o['dispatch'][col].values.astype(float)
+        for t in range(T):
+            t2 = t + per_steps
+            if t2 < T and (dur_steps is None or t // dur_steps == t2 // dur_steps) and abs(v[t] - v[t2]) > 1e-6:
+                F('C13.periodic.dispatch_repeats_at_same_position_of_every_period', f'{col}: step {t} {v[t]} vs step {t2} {v[t2]}')
+                return out
+    return out
+
+
+# ------------------------------------------------------------------------------------------------ C13 coarse asset frequency, several kinds
+def check_coarse_kinds(case):
+    """C13: an asset of any kind given a coarser frequency than the portfolio (one / two variables per step, one / several
+    mapping rows per variable) yields a well-formed problem; it is dispatched at a constant rate within each of its coarse
+    intervals (also where the fine steps differ in length); on uniform grids the optimum equals the fine portfolio plus
+    those equalities (independent scipy/HiGHS LP)."""
+    from scipy.optimize import linprog
+    eao = eao_mod()
+    out = []
+    rng = random.Random(case['seed'])
+    if case.get('dst'):
+        start = pd.Timestamp('2021-03-21')                                                              # a Sunday (anchor of 'W')
+        tg = eao.assets.Timegrid(start, start + pd.Timedelta(14, 'd'), freq='d', timezone='CET')        # calendar days; 28 March has 23 h
+        coarse = 'W'
+    else:
+        start = pd.Timestamp('2021-01-04')
+        tg = eao.assets.Timegrid(start, start + pd.Timedelta(case['hours'], 'h'), freq='h')
+        coarse = case['coarse']
+    T = tg.T
+    dt = np.asarray(tg.dt, dtype=float)
+    A, B = eao.assets.Node('A'), eao.assets.Node('B')
+    prices = {'p': np.asarray([float(rng.randint(1, 9)) for _ in range(T)]), 'q': np.asarray([float(rng.randint(1, 9)) for _ in range(T)])}
+
+    def build(with_freq):
+        kw = dict(freq=coarse) if with_freq else {}
+        kind = case['kind']
+        if kind == 'simple':
+            a = eao.assets.SimpleContract(name='x', nodes=B, price='p', min_cap=-1., max_cap=2., **kw)
+        elif kind == 'spread':
+            a = eao.assets.Contract(name='x', nodes=B, price='p', extra_costs=.5, min_cap=-1., max_cap=2., **kw)
+        elif kind == 'transport':
+            a = eao.assets.Transport(name='x', nodes=[A, B], min_cap=0., max_cap=2., efficiency=.9, costs_const=.1, **kw)
+        else:
+            a = eao.assets.MultiCommodityContract(name='x', nodes=[A, B], factors_commodities=[-1., .8], min_cap=0., max_cap=2., extra_costs=.2, **kw)
+        others = [eao.assets.SimpleContract(name='mA', nodes=A, price='p', min_cap=-5., max_cap=5.),
+                  eao.assets.SimpleContract(name='mB', nodes=B, price='q', min_cap=-1., max_cap=1., extra_costs=.3)]
+        return a, eao.portfolio.Portfolio([a] + others if case.get('first', True) else others + [a])
+    F = lambda name, detail: out.append(fail(name, 'assets:Asset.__extend_mapping_to_minor_grid__', case, dict(case), detail))
+    a1, pf1 = build(True)
+    try:
+        op_alone = a1.setup_optim_problem(prices, tg)
+        op1 = pf1.setup_optim_problem(prices, tg)
+    except Exception as e:
+        F('C13.coarse.every_asset_kind_that_accepts_freq_sets_up', f'{type(e).__name__}: {str(e)[:150]}')
+        return out
+    for name, detail in _wf_problem(op_alone, T, 'stand-alone coarse asset') + _wf_problem(op1, T, 'portfolio with the coarse asset'):
+        F(name.replace('C07.', 'C13.'), detail)
+    if out:
+        return out
+    res = op1.optimize()
+    if isinstance(res, str):
+        F('C13.coarse.solvable', res)
+        return out
+    # coarse intervals on the fine grid
+    cg = eao.assets.Timegrid(tg.start, tg.end, freq=coarse, ref_timegrid=tg)
+    groups_t = [list(int(t) for t in I) for I in cg.I_minor_in_major]
+    o = eao.io.extract_output(pf1, op1, res)
+    for col in [c for c in o['dispatch'].columns if c.startswith('x')]:
+        v = o['dispatch'][col].values.astype(float)
+        for g in groups_t:
+            rates = v[g] / dt[g]
+            if np.abs(rates - rates[0]).max() > 1e-6 * max(1., np.abs(rates).max()):
+                F('C13.coarse.constant_rate_within_each_coarse_interval', f'{col}: steps {g[:6]} rates {np.round(rates, 5).tolist()[:6]}')
+                return out
+    if case['kind'] == 'transport':
+        a_, b_ = o['dispatch']['x (A)'].values.astype(float), o['dispatch']['x (B)'].values.astype(float)
+        if not np.allclose(b_, -.9 * a_, atol=1e-6):
+            F('C13.coarse.transport_efficiency_applied_per_fine_step', f'A {np.round(a_, 4).tolist()[:8]} B {np.round(b_, 4).tolist()[:8]}')
+            return out
+    if case.get('dst'):
+        return out
+    # reference: fine portfolio + equal volumes of the asset's variables inside each coarse interval (uniform steps)
+    a0, pf0 = build(False)
+    op0 = pf0.setup_optim_problem(prices, tg)
+    m = op0.mapping
+    mine = m[m['asset'] == 'x']
+    first = mine[~mine.index.duplicated(keep='first')]
+    step_group = {}
+    for gi, g in enumerate(groups_t):
+        for t in g:
+            step_group[t] = gi
+    groups = {}
+    for i, r in first.iterrows():
+        groups.setdefault((r.get('var_name'), step_group[int(r['time_step'])]), []).append(int(i))
+    n = len(op0.c)
+    A0 = op0.A.toarray()
+    ct = np.array(list(op0.cType))
+    eq_rows, eq_b = [A0[(ct == 'S') | (ct == 'N')]], [op0.b[(ct == 'S') | (ct == 'N')]]
+    for g in groups.values():
+        for i, j in zip(g[:-1], g[1:]):
+            row = np.zeros((1, n))
+            row[0, i], row[0, j] = 1., -1.
+            eq_rows.append(row)
+            eq_b.append(np.zeros(1))
+    ub_rows = np.vstack([A0[ct == 'U'], -A0[ct == 'L']])
+    ub_b = np.hstack([op0.b[ct == 'U'], -op0.b[ct == 'L']])
+    r = linprog(op0.c, A_ub=ub_rows if len(ub_b) else None, b_ub=ub_b if len(ub_b) else None, A_eq=np.vstack(eq_rows), b_eq=np.hstack(eq_b),
+                bounds=list(zip(op0.l, op0.u)), method='highs')
+    if r.status == 0 and abs(res.value + r.fun) > 1e-5 * max(1., abs(r.fun)):
+        F('C13.coarse.value_equals_fine_problem_with_equalities', f'coarse {res.value} vs reference {-r.fun}')
     return out
